@@ -197,14 +197,16 @@ class DefaultDeploymentManager(DeploymentManager):
                     if not config.external:
                         logger.info(f"COMPLETED undeployment of {deployment_name}")
                 self.events_map[deployment_name].set()
-            # Remove the current environment from all the other dependency graphs
-            for name, deps in list(
-                (k, v) for k, v in self.dependency_graph.items() if k != deployment_name
-            ):
-                deps.discard(deployment_name)
-                # If there are no more dependencies, undeploy the environment
-                if len(deps) == 0:
-                    await self.undeploy(name)
+                # Remove the current environment from all the other dependency graphs
+                for name, deps in list(
+                    (k, v)
+                    for k, v in self.dependency_graph.items()
+                    if k != deployment_name
+                ):
+                    deps.discard(deployment_name)
+                    # If there are no more dependencies, undeploy the environment
+                    if len(deps) == 0:
+                        await self.undeploy(name)
 
     async def undeploy_all(self) -> None:
         undeployments = []
